@@ -41,6 +41,11 @@ TopCalls ==
   \cup { C("Notify5G_QOS_INFO", n = 2 /\ dscpi, [pdu |-> IF dcsi THEN 255 ELSE 5, qfis |-> [i \in 1..n |-> (i * 3) % 64], dcsi |-> dcsi, dscpi |-> dscpi, dscp |-> IF dcsi THEN 46 ELSE 255]) :
            n \in {0, 1, 2, 250, 251, 252, 255, 256, 300}, dcsi \in BOOLEAN, dscpi \in BOOLEAN }
 
+\* a message is created from the container (and keeps its payload list), the container is reset and built on again
+MidCalls == { C("NewMessage", TRUE, [ispi |-> Ramp(8, 9), rspi |-> D(8, 31), xt |-> 37, response |-> TRUE, initiator |-> FALSE, mid |-> << 0, 0, 0, 7 >>]),
+              C("Reset", TRUE, [x |-> 0]) }
+NMid == Cardinality({ i \in 1..Len(calls) : calls[i].fn \in {"NewMessage", "Reset"} })
+
 SubCalls ==
   { C("ConfigurationAttribute", FALSE, [t |-> a, v |-> D(n, 23)]) : a \in {1, 32767}, n \in {0, 4} }
   \cup { C("IndividualTrafficSelector", FALSE, Sel4(6, 256, 1, 24)), C("IndividualTrafficSelector", FALSE, Sel6(255, 65535, 0, 25)) }
@@ -67,17 +72,24 @@ Build(c) == /\ CallEnabled(cont, c)
             /\ calls' = Append(calls, c)
             /\ failed' = (~ApplyCall(cont, c).ok \/ IsBig(c))     \* no extension after a refused call or a maximum-size argument
 Next ==
-  \/ \E c \in TopCalls : /\ ~failed /\ Len(cont) < MaxTop
-                         /\ (IF Len(cont) = 0 THEN Len(calls) = 0 ELSE Complete(Last(cont)) /\ c.rep)
+  \/ \E c \in TopCalls : /\ ~failed /\ Len(cont) < (IF NMid = 0 THEN MaxTop ELSE 1)
+                         /\ (IF Len(cont) = 0 THEN (IF Len(calls) = 0 THEN TRUE ELSE calls[Len(calls)].fn = "Reset" /\ c.rep) ELSE Complete(Last(cont)) /\ c.rep)
                          /\ Build(c)
-  \/ \E c \in SubCalls : /\ ~failed
+  \/ \E c \in MidCalls : /\ ~failed /\ NMid < 2 /\ Len(cont) = 1 /\ calls[1].rep
+                         /\ (IF Len(cont) = 0 THEN FALSE ELSE Complete(Last(cont)))
+                         /\ (IF c.fn = "Reset" THEN (IF Len(calls) = 0 THEN FALSE ELSE calls[Len(calls)].fn = "NewMessage") ELSE NMid = 0)
+                         /\ Build(c)
+  \* (a message holds POINTERS to its payloads: sub-builder calls on a payload a message already references change that
+  \*  message by design, so none is made between NewMessage and Reset)
+  \/ \E c \in SubCalls : /\ ~failed /\ NMid # 1
                          /\ (IF Len(cont) = 0 THEN FALSE ELSE CallEnabled(cont, c) /\ SubAllowed(c))
                          /\ Build(c)
 
 NM == [ispi |-> Ramp(8, 1), rspi |-> D(8, 30), xt |-> 35, response |-> (Len(calls) % 2 = 0), initiator |-> (Len(calls) % 3 # 0), mid |-> << 0, 0, 1, Len(calls) >>]
-Emit == Len(calls) > 0 /\ (Len(cont) = 0 \/ Complete(Last(cont))) => PrintT(ToJson(BuilderVector(calls, NM)))
+Emit == Len(calls) > 0 /\ (IF Len(cont) = 0 THEN TRUE ELSE Complete(Last(cont))) => PrintT(ToJson(BuilderVector(calls, NM)))
 Sound == cont = Final(<< >>, calls)
 \* C19 at the design level: a call appends at most one payload and never touches an earlier one
-EarlierUntouched == [][\A i \in 1..(Len(cont) - 1) : cont'[i] = cont[i]]_<< cont, calls, failed >>
-AtMostOne == [][Len(cont') \in {Len(cont), Len(cont) + 1}]_<< cont, calls, failed >>
+IsReset == Len(calls') > 0 /\ calls'[Len(calls')].fn = "Reset"
+EarlierUntouched == [][IsReset \/ \A i \in 1..(Len(cont) - 1) : cont'[i] = cont[i]]_<< cont, calls, failed >>
+AtMostOne == [][IsReset \/ Len(cont') \in {Len(cont), Len(cont) + 1}]_<< cont, calls, failed >>
 =============================================================================
